@@ -212,11 +212,17 @@ inductive Instr where
   | currClosure
   | getFree (i : Nat)      -- a captured value of the running closure
   | setFree (i : Nat)      -- the value stays on the stack
+  -- containers and builtins (executed by the machine of `Core/Fn`)
+  | array (n : Nat)        -- Array: the `n` topmost operands become a new array object
+  | hmap (n : Nat)         -- Map: the `n` topmost operands (key, value, key, value, …) become a new map object
+  | getIndex               -- GetIndex: `a[i]`
+  | setIndex               -- SetIndex: `a[i] = v` (value, container, index on the stack); the value stays
+  | getBuiltin (i : Nat)   -- GetBuiltinFn: entry `i` of the builtin table
 deriving Repr
 
 def Instr.size : Instr → Nat
-  | .const _ | .jump _ | .jif _ | .jifnp _ | .getGlobal _ | .setGlobal _ | .defGlobal _ => 3
-  | .call _ | .getLocal _ | .setLocal _ | .defLocal _ | .getFree _ | .setFree _ => 2
+  | .const _ | .jump _ | .jif _ | .jifnp _ | .getGlobal _ | .setGlobal _ | .defGlobal _ | .array _ | .hmap _ => 3
+  | .call _ | .getLocal _ | .setLocal _ | .defLocal _ | .getFree _ | .setFree _ | .getBuiltin _ => 2
   | .closure .. => 4
   | _ => 1
 
